@@ -12,6 +12,7 @@ a brute-force justified-representation check on every PAV committee.
 import itertools
 import math
 from fractions import Fraction
+from decimal import Decimal
 from common import *   # noqa
 
 ID = 'C12'
@@ -21,14 +22,23 @@ GEN_MODULES = ['Quota']
 
 
 # ------------------------------------------------------------------------------------------------
-# candidates: str objects that hash to their protocol id, so that CPython iterates every frozenset / Tie of
-# candidates in ascending id order (the model's reading of "iteration order of a set of candidates")
+# candidates.  The model reads "iteration order of a set of candidates" as ascending protocol id; every candidate kind
+# below hashes to its id, which makes CPython iterate small sets of them in that order.
+#   'k'       str objects 'c<i>' (default)
+#   'int0'    the int id itself - candidate 0 is falsy
+#   'empty0'  candidate 0 is the EMPTY string (a str, falsy), the others as 'k'
+#   'person'  votelib.candidate.Person objects: compared by IDENTITY (a copy is a different candidate)
+# An object the harness did not hand in decodes to id 999999, which every oracle clause reports as a violation.
+
+UNKNOWN_CANDIDATE = 999999
+NAME_KINDS = ['k', 'int0', 'empty0', 'person']
+
 
 class K(str):
     __slots__ = ('idx',)
 
-    def __new__(cls, idx):
-        o = super().__new__(cls, f'c{idx}')
+    def __new__(cls, idx, text=None):
+        o = super().__new__(cls, f'c{idx}' if text is None else text)
         o.idx = idx
         return o
 
@@ -43,17 +53,54 @@ class K(str):
 
 
 _KS = [K(i) for i in range(16)]
+_KE = [K(0, '')] + _KS[1:]
+_PERSONS = {}
+
+
+def _person(i):
+    if i not in _PERSONS:
+        import votelib.candidate
+
+        class PersonK(votelib.candidate.Person):
+            def __hash__(self):
+                return self.idx
+        p = PersonK(f'person {i}')
+        p.idx = i
+        _PERSONS[i] = p
+    return _PERSONS[i]
 
 
 class _Names:
+    def __init__(self, kind='k'):
+        self.kind = kind
+
     def n(self, i):
+        if self.kind == 'int0':
+            return i
+        if self.kind == 'empty0':
+            return _KE[i]
+        if self.kind == 'person':
+            return _person(i)
         return _KS[i]
 
     def i(self, name):
-        return int(name[1:])
+        if isinstance(name, K):
+            return name.idx
+        if isinstance(name, bool):
+            return UNKNOWN_CANDIDATE
+        if isinstance(name, int):
+            return name
+        for i, p in _PERSONS.items():
+            if p is name:
+                return i
+        return UNKNOWN_CANDIDATE
 
 
 NAMES = _Names()
+
+
+def _names(case):
+    return _Names(case.get('_names', 'k'))
 
 
 def _num(s, as_int=True):
@@ -61,14 +108,29 @@ def _num(s, as_int=True):
     return int(f) if (as_int and f.denominator == 1) else f
 
 
-def approval_votes(case):
-    return {frozenset(NAMES.n(c) for c in b): _num(w) for b, w in case['votes']}
+def _typed(s, kind):
+    """the exact number `s` ("p/q") as a Python number of the given kind: int / frac / dec / float (fallback: Fraction)"""
+    f = Fraction(s)
+    if kind == 'frac':
+        return f
+    if kind == 'dec':
+        d = Decimal(f.numerator) / Decimal(f.denominator)
+        return d if Fraction(d) == f else f
+    if kind == 'float':
+        x = f.numerator / f.denominator
+        return x if Fraction(x) == f else f
+    return int(f) if f.denominator == 1 else f
 
 
-def score_votes(case):
+def approval_votes(case, names=NAMES):
+    return {frozenset(names.n(c) for c in b): _num(w) for b, w in case['votes']}
+
+
+def score_votes(case, names=NAMES):
     out = {}
+    gt = case.get('_gt', 'int')
     for b, w in case['votes']:
-        key = frozenset((NAMES.n(c), _num(g)) for c, g in b)
+        key = frozenset((names.n(c), _typed(g, gt)) for c, g in b)
         out[key] = out.get(key, 0) + (_num(w) if isinstance(w, str) else w)
     return out
 
@@ -76,52 +138,90 @@ def score_votes(case):
 def _agg_kwargs(case):
     u = case.get('unscored')
     if u is not None and u != 'min':
-        u = _num(u)
-    t = Fraction(case.get('truncation', '0'))
-    t = int(t) if t.denominator == 1 else t
+        u = _typed(u, case.get('_ut', 'int'))
+    t = _typed(case.get('truncation', '0'), case.get('_tt', 'int'))
     return dict(unscored_value=u, min_count=case.get('min_count', 0), truncation=t,
-                bottom_value=_num(case.get('bottom', '0')))
+                bottom_value=_typed(case.get('bottom', '0'), case.get('_bt', 'int')))
 
 
 # ------------------------------------------------------------------------------------------------
 # implementation side
 
-def impl(case):
+def _evaluator(case, decoy=False):
+    """the votelib object of a case (decoy: a differently configured object of the same class)"""
     import votelib.evaluate.approval as vapp
     import votelib.evaluate.cardinal as vcard
+    import votelib.evaluate.condorcet as vcond
+    import votelib.component.quota as vquota
+    op = case['op']
+    if op in ('pav', 'pav_seq'):
+        return vapp.ProportionalApproval()
+    if op == 'spav':
+        return vapp.SequentialProportionalApproval()
+    if op == 'allocated':
+        q = case['quota']
+        if decoy:
+            q = 'hare' if q != 'hare' else 'droop'
+        elif case.get('_qc'):
+            q = getattr(vquota, q)
+        return vcard.AllocatedScoreSelector(q)
+    kw = _agg_kwargs(case)
+    if decoy:
+        kw = dict(kw, min_count=kw['min_count'] + 2, bottom_value=7, unscored_value=(None if kw['unscored_value'] is not None else 3))
+    if op == 'score':
+        return vcard.ScoreVoting(function=('sum' if decoy and case['function'] != 'sum' else case['function']), **kw)
+    if op == 'mj':
+        tb = case['tie_breaking']
+        if decoy:
+            tb = 'plus' if tb == 'default' else 'default'
+        return vcard.MajorityJudgment(tie_breaking=tb, **kw)
+    if op == 'star':
+        extra = {}
+        if case.get('_re') == 'obj':
+            extra['runoff_evaluator'] = vcond.Schulze()
+        return vcard.STAR(runoff_added_count=case['added_count'] + (1 if decoy else 0),
+                          runoff_added_fraction=_typed(case['added_fraction'], case.get('_ft', 'int')), **extra, **kw)
+    raise ValueError(op)
+
+
+def _votes_of(case, names):
+    return approval_votes(case, names) if case['op'] in ('pav', 'pav_seq', 'spav') else score_votes(case, names)
+
+
+def impl(case):
     import votelib.convert as vconv
     op = case['op']
-    if op == 'pav':
-        votes = approval_votes(case)
-        return guarded(lambda: enc_selection(vapp.ProportionalApproval().evaluate(votes, case['n']), NAMES))
+    names = _names(case)
+    if op == 'seq':
+        runs = case['runs']
+        def build():
+            if case.get('_decoy'):
+                d = _evaluator(runs[0], decoy=True)
+                try:
+                    d.evaluate(_votes_of(dict(runs[0], _names=case.get('_names', 'k')), names), runs[0]['n'])
+                except Exception:      # noqa
+                    pass
+            return _evaluator(runs[0])
+        ev = guarded(build)
+        if isinstance(ev, dict) and 'err' in ev:
+            return [ev for _ in runs]
+        out = []
+        for r in runs:
+            votes = _votes_of(dict(r, _gt=r.get('_gt', 'int')), names)
+            out.append(guarded(lambda votes=votes, r=r: enc_selection(ev.evaluate(votes, r['n']), names)))
+        return out
     if op == 'pav_seq':
-        votes = approval_votes(case)
-        inst = vapp.ProportionalApproval()
-        return [guarded(lambda n=n: enc_selection(inst.evaluate(votes, n), NAMES)) for n in case['calls']]
-    if op == 'spav':
-        votes = approval_votes(case)
-        return guarded(lambda: enc_selection(vapp.SequentialProportionalApproval().evaluate(votes, case['n']), NAMES))
-    votes = score_votes(case)
-    kw = _agg_kwargs(case)
+        votes = approval_votes(case, names)
+        inst = _evaluator(case)
+        return [guarded(lambda n=n: enc_selection(inst.evaluate(votes, n), names)) for n in case['calls']]
+    votes = _votes_of(case, names)
     if op == 'score_agg':
+        kw = _agg_kwargs(case)
         def run():
             res = vconv.ScoreToSimpleVotes(function=case['function'], **kw).convert(votes)
-            return sorted([NAMES.i(c), num_str(v)] for c, v in res.items())
+            return sorted([names.i(c), num_str(v)] for c, v in res.items())
         return guarded(run)
-    if op == 'score':
-        return guarded(lambda: enc_selection(
-            vcard.ScoreVoting(function=case['function'], **kw).evaluate(votes, case['n']), NAMES))
-    if op == 'mj':
-        return guarded(lambda: enc_selection(
-            vcard.MajorityJudgment(tie_breaking=case['tie_breaking'], **kw).evaluate(votes, case['n']), NAMES))
-    if op == 'star':
-        return guarded(lambda: enc_selection(
-            vcard.STAR(runoff_added_count=case['added_count'], runoff_added_fraction=_num(case['added_fraction']),
-                       **kw).evaluate(votes, case['n']), NAMES))
-    if op == 'allocated':
-        return guarded(lambda: enc_selection(
-            vcard.AllocatedScoreSelector(case['quota']).evaluate(votes, case['n']), NAMES))
-    raise ValueError(op)
+    return guarded(lambda: enc_selection(_evaluator(case).evaluate(votes, case['n']), names))
 
 
 # ------------------------------------------------------------------------------------------------
@@ -446,6 +546,13 @@ def ref_allocated(prof, n, quota_name, tie_orders=False):
         quota = Fraction(V, n + 1).__floor__() + 1
     elif quota_name == 'hare':
         quota = Fraction(V, n)
+    elif quota_name == 'hagenbach_bischoff':
+        quota = Fraction(V, n + 1)
+    elif quota_name == 'imperiali':
+        quota = Fraction(V, n + 2)
+    elif quota_name == 'hare_rounded':
+        x = Fraction(V, n)
+        quota = Fraction(math.floor(x) + (1 if x - math.floor(x) >= Fraction(1, 2) else 0))
     else:
         raise ValueError(quota_name)
     results = set()
@@ -586,8 +693,22 @@ def oracle(case, obs):
         if obs != el:
             return [('spav_round_argmax', f'expected {el}, got {obs}')]
         return []
+    if op == 'seq':
+        out = []
+        for r, o in zip(case['runs'], obs):
+            sub = dict(r, _names=case.get('_names', 'k'))
+            out += oracle(sub, o)
+            fresh = impl(sub)
+            same = (o == fresh) if (_is_err(o) or _is_err(fresh)) else (canon_sel(o) == canon_sel(fresh))
+            if not same:
+                out.append(('seq_history', f'same object: {o}, fresh object: {fresh}'))
+        return out
     prof = ref_score_profile(case)
-    if any(w.denominator != 1 for _, w in prof):
+    if case.get('_gt') == 'dec' or case.get('_ut') == 'dec' or case.get('_bt') == 'dec':
+        # Decimal grades are exact numbers: the aggregates are defined as for Fractions
+        if _is_err(obs, 'TypeError'):
+            return [('allocated_decimal' if op == 'allocated' else 'score_decimal_mean', obs['err'])]
+    if op != 'allocated' and any(w.denominator != 1 for _, w in prof):
         # counts that are not integers: the aggregate is still defined (weighted mean / median)
         if _is_err(obs):
             return [('score_fraction_count', obs['err'])]
@@ -726,6 +847,14 @@ def compare(case, iobs, mobs):
             if r:
                 return r
         return None
+    if op == 'seq':
+        if not isinstance(mobs, list) or len(mobs) != len(iobs):
+            return f'impl={json.dumps(iobs)} model={json.dumps(mobs)}'
+        for r, a, b in zip(case['runs'], iobs, mobs):
+            d = compare(r, a, b)
+            if d:
+                return d
+        return None
     if op == 'score_agg':
         m = mobs if _is_err(mobs) else sorted(mobs)
         return None if iobs == m else f'impl={json.dumps(iobs)} model={json.dumps(m)}'
@@ -741,9 +870,16 @@ def compare(case, iobs, mobs):
 
 def model_line(case):
     c = strip_case(case)
-    if c['op'] not in ('pav', 'pav_seq', 'spav'):
+    if c['op'] == 'seq':
+        runs = [model_line(r) for r in c['runs']]
+        if any(r is None for r in runs):
+            return None
+        return {'op': 'seq', 'runs': runs}
+    if c['op'] not in ('pav', 'pav_seq', 'spav', 'allocated'):
         if any(isinstance(w, str) for _, w in c['votes']):
             return None                      # counts that are not Python ints: not modelled (the code raises TypeError)
+    if case.get('_gt') == 'dec' and (c['op'] == 'allocated' or c.get('function') == 'mean'):
+        return None                          # Decimal grades with the exact mean / in allocated score: the code raises TypeError
     return c
 
 
@@ -819,6 +955,134 @@ def _score_case(rng, op, m=None, **kw):
     return c
 
 
+
+# -- numeric kinds (checklist items 1, 2, 7)
+
+GRADE_POOLS = {
+    'frac': ['0', '1/3', '1/2', '3/2', '2', '5/2', '4'],
+    'dec': ['0', '1/2', '3/2', '2', '5/2', '4', '12345679/10000000'],     # incl. a grade with 7 decimals
+    'float': ['0', '1/2', '3/2', '2', '5/2', '4', '1/4'],                  # dyadic floats only: exact
+}
+
+
+def _typed_case(rng, op):
+    """a score-family case whose grades and parameters are Fraction / Decimal / float objects (where the evaluator accepts them)"""
+    gt = rng.choice(['frac', 'dec', 'float'] if op != 'allocated' else ['frac'])
+    if op == 'score_agg' and gt == 'float':
+        gt = 'dec'                                   # float aggregates are floats: nothing exact to compare
+    m = rng.randint(2, 5)
+    c = {'op': op, 'votes': _score_profile(rng, m, grades=GRADE_POOLS[gt]), 'n': rng.randint(1, m), '_gt': gt}
+    if op == 'allocated':
+        c['quota'] = rng.choice(['droop', 'hare'])
+        ncand = len({x[0] for b, _ in c['votes'] for x in b})
+        c['n'] = rng.randint(1, max(1, ncand))
+        return c
+    fn = None
+    if op in ('score_agg', 'score'):
+        fn = rng.choice(FUNCTIONS if gt == 'frac' else ['sum', 'median_low'])
+        c['function'] = fn
+    # one number family per case: Decimal does not mix with Fraction or float in Python, and the exact mean takes
+    # int / Fraction only (see the open finding)
+    kinds = ['int', gt] if fn != 'mean' else ['int', 'frac']
+    c['unscored'] = rng.choice([None, '0', '0', '-1', '1/2', 'min'])
+    c['_ut'] = rng.choice(kinds)
+    c['min_count'] = rng.choice([0, 0, 2, 3])
+    c['bottom'] = rng.choice(['0', '3/2', '-1', '0'])
+    c['_bt'] = rng.choice(kinds)
+    t = rng.choice(['0', '0', '1', '2', '1/4', '1/3', '17/50'])
+    c['truncation'] = t
+    c['_tt'] = 'int' if Fraction(t) >= 1 or t == '0' else rng.choice(['frac', 'dec', 'float'] if t == '1/4' else (['frac', 'dec'] if t != '1/3' else ['frac']))
+    if op == 'mj':
+        c['tie_breaking'] = rng.choice(['default', 'plus'])
+    if op == 'star':
+        if c['unscored'] == 'min':
+            c['unscored'] = '1/2'
+        c['added_count'] = rng.choice([0, 1, 1, 2])
+        f = rng.choice(['0', '1/2', '1', '7/10'])
+        c['added_fraction'] = f
+        c['_ft'] = rng.choice(['frac', 'dec', 'float'] if f == '1/2' else ['frac', 'dec'])
+        c['_re'] = rng.choice(['name', 'obj'])
+    return c
+
+
+BIG = [10 ** 9, 2 ** 53, 10 ** 18, 10 ** 30]
+ALLOC_QUOTAS = ['droop', 'hare', 'hagenbach_bischoff', 'imperiali', 'hare_rounded']
+
+
+def _alloc_case(rng):
+    """allocated score with every quota function (by name and as a callable), Fraction counts, and counts at large
+    magnitudes with exact ties and one-vote differences"""
+    m = rng.randint(2, 4)
+    votes = _score_profile(rng, m, grades=rng.choice([(0, 1, 2, 3, 4, 5), (0, 1, 2), (1, 5)]), nbmax=4)
+    kind = rng.choice(['plain', 'big', 'big', 'fraction'])
+    if kind == 'big':
+        M = rng.choice(BIG)
+        votes = [[b, str(w * M + rng.choice([0, 0, 1, -1]))] for b, w in votes]
+    elif kind == 'fraction':
+        votes = [[b, num_str(Fraction(w * rng.choice([1, 3, 5]), rng.choice([1, 2, 3, 4])))] for b, w in votes]
+    ncand = len({x[0] for b, _ in votes for x in b})
+    c = {'op': 'allocated', 'votes': votes, 'n': rng.randint(1, max(1, ncand)), 'quota': rng.choice(ALLOC_QUOTAS)}
+    if rng.random() < 0.3:
+        c['_qc'] = True
+    return c
+
+
+def _appr_big_case(rng, op):
+    """approval profile at magnitude M with exact ties and one-vote races (also for later seats)"""
+    m = rng.randint(3, 5)
+    M = rng.choice(BIG[1:])
+    votes, seen = [], set()
+    for _ in range(rng.randint(2, 5)):
+        b = tuple(sorted(rng.sample(range(m), rng.randint(1, 2))))
+        if b in seen:
+            continue
+        seen.add(b)
+        votes.append([list(b), str(rng.randint(1, 3) * M + rng.choice([0, 0, 0, 1, -1]))])
+    return {'op': op, 'votes': votes, 'n': rng.randint(2, m)}
+
+
+def _mj_shared_median_case(rng, complete):
+    """4-5 candidates sharing the median grade, 3+ seats, weights up to 30"""
+    m = rng.randint(4, 5)
+    g = rng.choice([2, 3])
+    votes, seen = [], set()
+    heavy = tuple((c, str(g)) for c in range(m))
+    votes.append([[list(x) for x in heavy], rng.randint(12, 30)])
+    seen.add(heavy)
+    for _ in range(rng.randint(2, 4)):
+        cs = list(range(m)) if complete else sorted(rng.sample(range(m), rng.randint(2, m)))
+        b = tuple((c, str(rng.choice([g - 2, g - 1, g, g + 1, g + 2]))) for c in cs)
+        if b not in seen:
+            seen.add(b)
+            votes.append([[list(x) for x in b], rng.randint(1, 9)])
+    return {'op': 'mj', 'votes': votes, 'n': rng.randint(3, m - 1) if m > 4 else 3,
+            'tie_breaking': rng.choice(['default', 'default', 'plus']), 'unscored': None if complete else rng.choice([None, '0']),
+            'min_count': 0, 'truncation': '0', 'bottom': '0'}
+
+
+def _seq_case(rng):
+    """one evaluator object called two or three times with different profiles / seat numbers"""
+    op = rng.choice(['spav', 'score', 'mj', 'star', 'allocated'])
+    if op == 'spav':
+        runs = []
+        for _ in range(rng.randint(2, 3)):
+            m = rng.randint(2, 5)
+            runs.append({'op': 'spav', 'votes': _appr_profile(rng, m, small=True), 'n': rng.randint(1, m)})
+    else:
+        base = _score_case(rng, op)
+        runs = [base]
+        for _ in range(rng.randint(1, 2)):
+            m = rng.randint(2, 5)
+            r = dict(base)
+            r['votes'] = _score_profile(rng, m)
+            ncand = len({x[0] for b, _ in r['votes'] for x in b})
+            r['n'] = rng.randint(1, max(1, ncand))
+            runs.append(r)
+        if rng.random() < 0.5:
+            runs.sort(key=lambda r: -sum(len(b) for b, _ in r['votes']))      # larger first, then smaller
+    return {'op': 'seq', 'runs': runs, '_decoy': rng.random() < 0.5}
+
+
 DIRECTED = [
     # PAV: the witness of fix c5ab27b (one seat on a fresh instance), a tie, call sequences around a two-seat call
     {'op': 'pav', 'votes': [[[0, 1], '3'], [[2], '2']], 'n': 1},
@@ -851,6 +1115,31 @@ DIRECTED = [
     # counts that are not Python ints (open finding: the aggregation expands one list element per vote)
     {'op': 'score', 'votes': [[[[0, '5'], [1, '2']], '1/2'], [[[0, '1'], [1, '3']], '3/2']], 'n': 1, 'function': 'mean',
      'unscored': None, 'min_count': 0, 'truncation': '0', 'bottom': '0'},
+    # Decimal grades: exact numbers the exact mean / allocated score cannot digest (open findings)
+    {'op': 'score', 'votes': [[[[0, '3/2'], [1, '2']], 2], [[[0, '1/4']], 1]], 'n': 1, 'function': 'mean', '_gt': 'dec',
+     'unscored': None, 'min_count': 0, 'truncation': '0', 'bottom': '0'},
+    {'op': 'allocated', 'votes': [[[[0, '11/2'], [1, '2']], 3], [[[0, '1'], [1, '9/2']], 2]], 'n': 2, 'quota': 'hare', '_gt': 'dec'},
+    # weights beyond 2^53: a one-vote race and an exact tie for the SECOND seat (after a reweighting by 1/2)
+    {'op': 'spav', 'votes': [[[0, 1], str(2 * 2 ** 53)], [[0], str(2 * 2 ** 53)], [[2], str(2 ** 53 + 1)]], 'n': 2},
+    {'op': 'spav', 'votes': [[[0, 1], str(2 * 10 ** 30)], [[0], str(2 * 10 ** 30)], [[2], str(10 ** 30)]], 'n': 2},
+    {'op': 'pav', 'votes': [[[0, 1], str(2 * 10 ** 18)], [[0], str(2 * 10 ** 18)], [[2], str(10 ** 18 + 1)], [[3], '5']], 'n': 2},
+    {'op': 'pav', 'votes': [[[0, 1], str(2 * 10 ** 18)], [[0], str(2 * 10 ** 18)], [[2], str(10 ** 18)], [[3], '5']], 'n': 2},
+    # 4 candidates sharing the median for 3 seats, complete and partial ballots
+    {'op': 'mj', 'votes': [[[[0, '3'], [1, '3'], [2, '3'], [3, '3']], 10], [[[0, '5'], [1, '1'], [2, '4'], [3, '2']], 7],
+                           [[[0, '1'], [1, '5'], [2, '2'], [3, '4']], 6]], 'n': 3, 'tie_breaking': 'default',
+     'unscored': None, 'min_count': 0, 'truncation': '0', 'bottom': '0'},
+    {'op': 'mj', 'votes': [[[[0, '3'], [1, '3'], [2, '3'], [3, '3']], 10], [[[0, '5'], [1, '1'], [3, '2']], 7],
+                           [[[0, '1'], [1, '5'], [2, '2']], 6]], 'n': 3, 'tie_breaking': 'plus',
+     'unscored': None, 'min_count': 0, 'truncation': '0', 'bottom': '0'},
+    # one object, several calls: after an exception, and a larger profile before a smaller one
+    {'op': 'seq', '_decoy': True, '_tags': ['seq_after_error'], 'runs': [
+        {'op': 'allocated', 'votes': [[[[0, '5']], 2], [[[1, '3']], 1]], 'n': 2, 'quota': 'hare'},
+        {'op': 'allocated', 'votes': [[[[0, '5'], [1, '2'], [2, '1']], 2], [[[1, '3'], [0, '1'], [2, '0']], 2]], 'n': 3, 'quota': 'hare'}]},
+    {'op': 'seq', '_decoy': False, '_tags': ['seq_after_error'], 'runs': [
+        {'op': 'score', 'votes': [[[[0, '5'], [1, '2']], 1]], 'n': 1, 'function': 'mean', 'unscored': None, 'min_count': 0,
+         'truncation': '2', 'bottom': '0'},
+        {'op': 'score', 'votes': [[[[0, '5'], [1, '2']], 3], [[[0, '1'], [1, '3']], 3], [[[0, '2'], [1, '2']], 2]], 'n': 1,
+         'function': 'mean', 'unscored': None, 'min_count': 0, 'truncation': '2', 'bottom': '0'}]},
     # allocated score: enough supporters for every quota
     {'op': 'allocated', 'votes': [[[[0, '5'], [1, '2'], [2, '1']], 2], [[[1, '3'], [0, '1'], [2, '0']], 2]], 'n': 3, 'quota': 'hare'},
     {'op': 'allocated', 'votes': [[[[0, '5'], [1, '2']], 4], [[[1, '5'], [0, '1']], 3], [[[2, '4'], [0, '1'], [1, '1']], 3]], 'n': 2, 'quota': 'droop'},
@@ -861,7 +1150,7 @@ def _raw_generate(rng, tier):
     q = tier == 'quick'
     for c in DIRECTED:
         c = json.loads(json.dumps(c))
-        c['_tags'] = ['directed']
+        c['_tags'] = ['directed'] + c.get('_tags', [])
         yield c
     for _ in range(800 if q else 20000):
         m = rng.randint(2, 6)
@@ -879,6 +1168,30 @@ def _raw_generate(rng, tier):
             c = _score_case(rng, op)
             c['_tags'] = []
             yield c
+    # numeric kinds, magnitudes, constructor parameters, structure sizes, repeated calls (generator checklist)
+    for op, k in (('score_agg', 150), ('score', 250), ('mj', 250), ('star', 250), ('allocated', 100)):
+        for _ in range(k if q else k * 8):
+            c = _typed_case(rng, op)
+            c['_tags'] = ['typed']
+            yield c
+    for _ in range(400 if q else 4000):
+        c = _alloc_case(rng)
+        c['_tags'] = []
+        yield c
+    for op in ('pav', 'spav'):
+        for _ in range(250 if q else 3000):
+            c = _appr_big_case(rng, op)
+            c['_tags'] = []
+            yield c
+    for complete in (True, False):
+        for _ in range(150 if q else 2000):
+            c = _mj_shared_median_case(rng, complete)
+            c['_tags'] = ['mj_shared']
+            yield c
+    for _ in range(300 if q else 3000):
+        c = _seq_case(rng)
+        c['_tags'] = []
+        yield c
     # directed random: majority-judgment ties (few grades, full ballots), equal-size and unequal-size
     for _ in range(6000 if q else 25000):
         m = rng.randint(2, 5)
@@ -933,12 +1246,54 @@ def _tag(case):
     tags = case['_tags']
     op = case['op']
     tags.append(op)
+    if case.get('_names', 'k') != 'k':
+        tags.append('names:' + case['_names'])
+        if op in ('pav', 'spav'):
+            tags.append('names_approval:' + case['_names'])
+        elif op != 'pav_seq':
+            tags.append('names_score:' + case['_names'])
+    if op == 'seq':
+        sub = case['runs'][0]['op']
+        tags.append('seq_' + sub)
+        if case.get('_decoy'):
+            tags.append('seq_decoy_first')
+        sizes = [sum(len(b) for b, _ in r['votes']) for r in case['runs']]
+        if any(a > b for a, b in zip(sizes, sizes[1:])):
+            tags.append('seq_larger_then_smaller')
+        return
     if op in ('pav', 'pav_seq', 'spav'):
         prof = ref_profile_approval(case)
         if any(w.denominator != 1 for _, w in prof):
             tags.append('fraction_weight')
         if any(w > 2 ** 53 for _, w in prof):
             tags.append('big_weight')
+            n = case.get('n', 0)
+            if op == 'spav' and n >= 2:
+                cands = set().union(*[b for b, _ in prof])
+                elected = []
+                for rnd in range(n):
+                    rest = sorted(cands - set(elected))
+                    if not rest:
+                        break
+                    sc = sorted(((sum(w / (1 + len(b & set(elected))) for b, w in prof if c in b), c) for c in rest), reverse=True)
+                    if len(sc) >= 2 and rnd >= 1:
+                        gap = sc[0][0] - sc[1][0]
+                        if gap == 0:
+                            tags.append('spav_big_later_tie')
+                        elif gap <= 1:
+                            tags.append('spav_big_later_race')
+                    if len(sc) >= 2 and sc[0][0] == sc[1][0]:
+                        break
+                    elected.append(sc[0][1])
+            if op == 'pav' and n >= 2:
+                cands = sorted(set().union(*[b for b, _ in prof]))
+                scs = sorted((pav_score(prof, frozenset(cb)) for cb in itertools.combinations(cands, n)), reverse=True)
+                if len(scs) >= 2:
+                    gap = scs[0] - scs[1]
+                    if gap == 0:
+                        tags.append('pav_big_tie')
+                    elif gap <= 1:
+                        tags.append('pav_big_race')
         if op == 'pav':
             arg, _ = ref_pav(prof, case['n'])
             tags.append('pav_unique' if len(arg) == 1 else 'pav_refusal')
@@ -956,9 +1311,35 @@ def _tag(case):
     ncand = len({c for b, _ in prof for c in b})
     if any(len(b) < ncand for b, _ in prof):
         tags.append('partial_ballot')
-    if any(w.denominator != 1 for _, w in prof):
+    if op != 'allocated' and any(w.denominator != 1 for _, w in prof):
         tags.append('fraction_count')
         return
+    for key, name in (('_gt', 'grades'), ('_ut', 'unscored'), ('_bt', 'bottom'), ('_tt', 'truncation'), ('_ft', 'added_fraction')):
+        k = case.get(key, 'int')
+        src = {'_gt': None, '_ut': case.get('unscored'), '_bt': case.get('bottom'), '_tt': case.get('truncation'),
+               '_ft': case.get('added_fraction')}[key]
+        if k != 'int' and (key == '_gt' or (src is not None and src != 'min')):
+            tags.append(f'{name}_{k}')
+            if key != '_gt' and Fraction(src) == 0:
+                tags.append(f'{name}_{k}_zero')
+    if case.get('_gt') == 'dec' and any(Fraction(g).denominator > 10 ** 6 for b, _ in case['votes'] for _, g in b):
+        tags.append('grades_dec7')
+    if case.get('unscored') not in (None, 'min') and Fraction(case['unscored']) < 0:
+        tags.append('unscored_negative')
+    if case.get('_re') == 'obj':
+        tags.append('star_runoff_evaluator_object')
+    if case.get('_gt') == 'dec' and (op == 'allocated' or case.get('function') == 'mean'):
+        tags.append('decimal_rejected')
+        return
+    # sensitivity: the parameter changes the outcome of the definition (generator checklist item 7)
+    for param, default in (('unscored', None), ('min_count', 0), ('truncation', '0'), ('bottom', '0'), ('function', 'mean'),
+                           ('tie_breaking', 'default'), ('added_count', 1), ('added_fraction', '0'), ('quota', 'droop')):
+        if param in case and case[param] != default and not (param == 'function' and op not in ('score', 'score_agg')):
+            try:
+                if _ref_outcome(case) != _ref_outcome(dict(case, **{param: default})):
+                    tags.append('sens_' + param)
+            except Exception:      # noqa
+                pass
     if op in ('score_agg', 'score', 'mj', 'star'):
         fn = case.get('function', 'median_low' if op == 'mj' else 'sum')
         agg, corr = ref_aggregate(prof, case, fn)
@@ -981,6 +1362,10 @@ def _tag(case):
             if level is not None:
                 tags.append('mj_tie_' + case['tie_breaking'])
                 tags.append('mj_' + r['kind'])
+                if len(level) >= 4 and places >= 3:
+                    tags.append('mj_shared_median_3seats_' + ('partial' if 'partial_ballot' in tags else 'complete'))
+                    if max(w for _, w in prof) >= 12:
+                        tags.append('mj_shared_median_heavy')
         if op == 'star':
             _, members, wins, (s0, l0, p0), boundary = ref_star(prof, case)
             tags.append('star_boundary_tie' if boundary else 'star_runoff')
@@ -998,10 +1383,55 @@ def _tag(case):
                     tags.append('star_leader_loses_runoff')
     if op == 'allocated':
         tags.append('allocated_' + case['quota'])
+        if case.get('_qc'):
+            tags.append('allocated_quota_callable')
+        if any(w.denominator != 1 for _, w in prof):
+            tags.append('allocated_fraction_count')
+        if any(w > 2 ** 53 for _, w in prof):
+            tags.append('allocated_big_count')
+            results, _, _ = ref_allocated(prof, case['n'], case['quota'], tie_orders=False)
+            if any(isinstance(e, tuple) for el, _ in results for e in el):
+                tags.append('allocated_big_tie')
+
+
+def _ref_outcome(case):
+    """order-free outcome of the definition (for the sensitivity tags)"""
+    op = case['op']
+    prof = ref_score_profile(case)
+    if op in ('score', 'score_agg'):
+        agg, _ = ref_aggregate(prof, case, case['function'])
+        if any(v is None for v in agg.values()):
+            return 'undefined'
+        if op == 'score_agg':
+            return sorted(agg.items())
+        sure, level, places = nbest_ref(agg, case['n'])
+        return (sorted(sure), sorted(level) if level else None, places)
+    if op == 'mj':
+        r = ref_mj(prof, case)
+        return (r['kind'], sorted(r.get('winners', [])), sorted(r.get('tie', []) or []))
+    if op == 'star':
+        agg, members, wins, (sure, level, places), boundary = ref_star(prof, case)
+        if any(v is None for v in agg.values()):
+            return 'undefined'
+        return (sorted(sure), sorted(level) if level else None, places)
+    if op == 'allocated':
+        results, _, _ = ref_allocated(prof, case['n'], case['quota'], tie_orders=False)
+        return sorted(map(str, results))
+    return None
+
+
+def _assign_kind(c):
+    """deterministic in the case: about 40% of the cases use one of the other candidate kinds"""
+    if '_names' in c:
+        return
+    h = int(hashlib.sha256(json.dumps(strip_case(c), sort_keys=True, default=str).encode()).hexdigest()[:8], 16)
+    if h % 5 < 2:
+        c['_names'] = NAME_KINDS[1 + (h // 5) % 3]
 
 
 def generate(rng, tier):
     for c in _raw_generate(rng, tier):
+        _assign_kind(c)
         _tag(c)
         yield c
 
@@ -1012,7 +1442,27 @@ REQUIRED_COUNTERS = ['pav_unique', 'pav_refusal', 'pav_one_seat', 'pav_one_seat_
                      'truncation_fraction', 'truncation_count', 'min_count_binds', 'partial_ballot',
                      'score_boundary_tie', 'score_clear', 'mj_tie_default', 'mj_tie_plus', 'mj_ok', 'mj_unbreakable',
                      'star_runoff', 'star_boundary_tie', 'star_runoff_of_one', 'star_two_finalists', 'star_many_finalists', 'star_runoff_tied',
-                     'star_leader_loses_runoff', 'allocated_droop', 'allocated_hare', 'fraction_count']
+                     'star_leader_loses_runoff', 'allocated_droop', 'allocated_hare', 'fraction_count',
+                     # generator checklist: candidate kinds
+                     'names_approval:int0', 'names_approval:empty0', 'names_approval:person',
+                     'names_score:int0', 'names_score:empty0', 'names_score:person',
+                     # numeric kinds and falsy values
+                     'grades_frac', 'grades_dec', 'grades_float', 'grades_dec7', 'decimal_rejected',
+                     'unscored_frac', 'unscored_dec', 'unscored_frac_zero', 'unscored_dec_zero', 'unscored_negative',
+                     'bottom_frac', 'bottom_dec', 'truncation_frac', 'truncation_dec', 'truncation_float',
+                     'added_fraction_frac', 'added_fraction_dec', 'added_fraction_float', 'star_runoff_evaluator_object',
+                     # magnitudes
+                     'spav_big_later_race', 'spav_big_later_tie', 'pav_big_race', 'pav_big_tie',
+                     'allocated_big_count', 'allocated_big_tie', 'allocated_fraction_count',
+                     'allocated_hagenbach_bischoff', 'allocated_imperiali', 'allocated_hare_rounded', 'allocated_quota_callable',
+                     # structure
+                     'mj_shared_median_3seats_complete', 'mj_shared_median_3seats_partial', 'mj_shared_median_heavy',
+                     # state between calls
+                     'seq_spav', 'seq_score', 'seq_mj', 'seq_star', 'seq_allocated', 'seq_decoy_first', 'seq_larger_then_smaller',
+                     'seq_after_error',
+                     # every constructor parameter changes an outcome
+                     'sens_unscored', 'sens_min_count', 'sens_truncation', 'sens_bottom', 'sens_function', 'sens_tie_breaking',
+                     'sens_added_count', 'sens_added_fraction', 'sens_quota']
 
 
 def nontrivial(case, obs):
